@@ -31,6 +31,9 @@ fn as_admin(cmd: &str) -> Op {
 enum Act {
     GrantR,
     GrantW,
+    /// one GRANT naming both event types (t1 first)
+    GrantR12,
+    GrantW12,
     RevokeR,
     RevokeW,
     RevokeKey,
@@ -49,6 +52,9 @@ enum Tok {
 struct St {
     r: bool,
     w: bool,
+    /// explicit grants on the second event type
+    r2: bool,
+    w2: bool,
     /// the last permission command on t1 for this user was an acknowledged REVOKE READ / WRITE
     rrev: bool,
     wrev: bool,
@@ -66,6 +72,16 @@ fn step(s: St, a: Act) -> St {
         Act::GrantW => {
             n.w = true;
             n.wrev = false;
+        }
+        Act::GrantR12 => {
+            n.r = true;
+            n.rrev = false;
+            n.r2 = true;
+        }
+        Act::GrantW12 => {
+            n.w = true;
+            n.wrev = false;
+            n.w2 = true;
         }
         Act::RevokeR => {
             n.r = false;
@@ -101,6 +117,7 @@ enum Need {
     Read2,
     Read12,
     Write1,
+    Write2,
     Authenticated,
     Admin,
 }
@@ -110,6 +127,7 @@ fn kinds() -> Vec<(&'static str, &'static str, Need)> {
     vec![
         ("STORE", "STORE t1 FOR c9 PAYLOAD {\"k\":7,\"s\":\"p{n}\"}", Need::Write1),
         ("STORE payload with TOKEN and colons", "STORE t1 FOR c9 PAYLOAD {\"k\":8,\"s\":\"a:b: TOKEN deadbeef x:y\"}", Need::Write1),
+        ("STORE other type", "STORE t2 FOR c9 PAYLOAD {\"k\":9,\"s\":\"q{n}\"}", Need::Write2),
         ("QUERY", "QUERY t1", Need::Read1),
         ("QUERY other type", "QUERY t2", Need::Read2),
         ("QUERY aggregate", "QUERY t1 COUNT", Need::Read1),
@@ -183,9 +201,9 @@ pub fn check(tier: &str) -> i32 {
         Root { user: "no-auth", role: "" },
         Root { user: "Root", role: "" },
     ];
-    let acts = [Act::GrantR, Act::GrantW, Act::RevokeR, Act::RevokeW, Act::RevokeKey, Act::Auth, Act::Expire];
+    let acts = [Act::GrantR, Act::GrantW, Act::GrantR12, Act::GrantW12, Act::RevokeR, Act::RevokeW, Act::RevokeKey, Act::Auth, Act::Expire];
     // BFS over the reference state; every newly reached state is realised by replaying its path
-    let init = St { r: false, w: false, rrev: false, wrev: false, active: true, tok: Tok::None };
+    let init = St { r: false, w: false, r2: false, w2: false, rrev: false, wrev: false, active: true, tok: Tok::None };
     let mut paths: Vec<(St, Vec<Act>)> = Vec::new();
     let mut seen: BTreeSet<St> = BTreeSet::new();
     let mut fr: VecDeque<(St, Vec<Act>)> = VecDeque::new();
@@ -235,6 +253,8 @@ pub fn check(tier: &str) -> i32 {
             match a {
                 Act::GrantR => ops.push(as_admin(&format!("GRANT READ ON t1 TO {u}"))),
                 Act::GrantW => ops.push(as_admin(&format!("GRANT WRITE ON t1 TO {u}"))),
+                Act::GrantR12 => ops.push(as_admin(&format!("GRANT READ ON t1, t2 TO {u}"))),
+                Act::GrantW12 => ops.push(as_admin(&format!("GRANT WRITE ON t1, t2 TO {u}"))),
                 Act::RevokeR => ops.push(as_admin(&format!("REVOKE READ ON t1 FROM {u}"))),
                 Act::RevokeW => ops.push(as_admin(&format!("REVOKE WRITE ON t1 FROM {u}"))),
                 Act::RevokeKey => ops.push(as_admin(&format!("REVOKE KEY {u}"))),
@@ -316,12 +336,14 @@ pub fn check(tier: &str) -> i32 {
                 };
                 let can_r1 = role_reads(role) || st.r;
                 let can_w1 = role_writes(role) || st.w;
-                let can_r2 = role_reads(role);
+                let can_r2 = role_reads(role) || st.r2;
+                let can_w2 = role_writes(role) || st.w2;
                 let permitted = match need {
                     Need::Read1 => can_r1,
                     Need::Read2 => can_r2,
                     Need::Read12 => can_r1 && can_r2,
                     Need::Write1 => can_w1,
+                    Need::Write2 => can_w2,
                     Need::Authenticated => true,
                     Need::Admin => role == "admin",
                 };
@@ -415,7 +437,7 @@ pub fn check(tier: &str) -> i32 {
             "authentication_forms": FORMS.len(),
             "depth": depth,
             "exhaustive": true,
-            "explanation": "BFS over the reference authorisation state of a target user (read grant, write grant, key active, session token none/live/dead) under the actions {GRANT READ, GRANT WRITE, REVOKE READ, REVOKE WRITE, REVOKE KEY, AUTH, advance the clock past session expiry}, for every root (role in {none, read-only, viewer, editor, write-only, admin} and the user ids bypass, no-auth, Root); every state is realised on the real engine by replaying its path through the TCP listener's own authentication gate (check_auth) + parse + dispatch, then 17 command kinds x 10 authentication forms are probed; a probe that is executed (status 200) although the reference matrix says unauthenticated or not permitted is a violation",
+            "explanation": "BFS over the reference authorisation state of a target user (read grant, write grant, key active, session token none/live/dead) under the actions {GRANT READ, GRANT WRITE, GRANT READ on two types, GRANT WRITE on two types, REVOKE READ, REVOKE WRITE, REVOKE KEY, AUTH, advance the clock past session expiry}, for every root (role in {none, read-only, viewer, editor, write-only, admin} and the user ids bypass, no-auth, Root); every state is realised on the real engine by replaying its path through the TCP listener's own authentication gate (check_auth) + parse + dispatch, then 18 command kinds (incl. STORE and QUERY on the second type) x 10 authentication forms are probed; a probe that is executed (status 200) although the reference matrix says unauthenticated or not permitted is a violation",
         }),
         assumptions: vec!["the TCP gate function is driven directly (hook H7), the HTTP and WebSocket gates are not".into(), "one-directional oracle: executed => authenticated and permitted (denials of permitted requests are not judged)".into(), "read permission on t2 only through a reading role".into()],
         wall_s: t0.elapsed().as_secs_f64(),
